@@ -15,4 +15,28 @@ PROPS = {
     },
 }
 
+PROPS["C15"] = {
+    "level": "proof",
+    "streams": ["annot"],
+    "trusted_base": ["Go slice/index semantics (goSlice/goIndex)", UTF8,
+                     "strings.Split/ReplaceAll/HasPrefix/ToLower modelled by splitAll/replaceByte/hasPrefix/K8s.toLower",
+                     "the k8s regular expressions replaced by hand-written recognisers (regex literals are regenerated facts)",
+                     "Go map iteration order: the model is fed the entries in the order the real call returned the keys"],
+    "assumptions": [UTF8],
+    "technique": "Lean 4 proof: closed forms of AnnotationKey/Value/Update/Parse, key legality under the k8s rule, Split∘Join round trip; correspondence with pkg/cdi annotations.go",
+    "level_text": "Kernel-checked theorems for all plugin/device-id strings, device lists and maps: UpdateAnnotations never panics, on failure returns the map unchanged, on success appends exactly one previously unused key that carries the CDI prefix and is a legal Kubernetes annotation key and whose value splits back into exactly the requested devices; ParseAnnotations ignores foreign keys, fails with empty results iff some device is unqualified, and acceptance is independent of map iteration order. The model is compared with the real functions on every character class in first/middle/last position at lengths around the 63-byte limit, nil/empty/populated maps, used keys and malformed values; a judge written against the property text convicts the implementation's own outputs.",
+    "level_note": "Trusted: Lean kernel (+propext, Classical.choice, Quot.sound); the byte-level models of strings.* and of the two k8s regexes; constants regenerated from annotations.go and k8s/validation.go (named obligations F5_*).",
+}
+
+PROPS["C16"] = {
+    "level": "proof",
+    "streams": ["names", "path"],
+    "trusted_base": ["path/filepath (Clean, Join, Dir, Base, Ext) modelled lexically in CdiModel/Path.lean and compared with the real functions on every string over {/ . a b} up to length 6 (8 thorough) on every run",
+                     "os.MkdirAll / CreateTemp / renameat2 behaviour observed on a scratch tree (tree snapshots before/after)"],
+    "assumptions": ["configured directories are lexically cleaned by WithSpecDirs (checked by the stream)"],
+    "technique": "Lean 4 proof over a lexical filepath model: single-component names, component-level confinement of the write target, write/remove symmetry, encoding choice; tree-snapshot correspondence on real directories",
+    "level_text": "Kernel-checked theorems: for every valid vendor/class and every transient id the generated names are single path components; for every directory list and single-component name the WriteSpec target has exactly the components of the cleaned last directory plus one (the name, with .yaml appended unless it already ends in .json/.yaml) and is rooted iff the directory is; RemoveSpec computes the identical path; JSON is chosen iff the extension is .json. The model is tied to the code by running the real name generators on adversarial ids ('../../etc/passwd', 'a/b', '..', extensions, NUL) and the real WriteSpec/RemoveSpec on scratch trees, diffing full tree snapshots (exactly one file may change, directly inside the last directory; removal removes exactly what was written; removing a missing name succeeds) and comparing the path the cache reports after a refresh.",
+    "level_note": "Trusted: Lean kernel; the lexical filepath model (validated by the path stream every run); factgen for the extension-test facts (F6_*). Clean idempotence on its own output is checked by the stream, not proved.",
+}
+
 NOT_APPLICABLE = {}
